@@ -94,7 +94,12 @@ class SpliceInsert(ObjectWithFields):
         return kwargs
 
     def encode(self, dest):
-        self.program_splice_flag = self.splice_time is not None
+        if self.splice_time is not None:
+            self.program_splice_flag = True
+        elif not (self.splice_immediate_flag and getattr(self, 'program_splice_flag', False)):
+            # in splice immediate mode a program splice carries no splice_time,
+            # so a program_splice_flag that was given (e.g. parsed) is kept
+            self.program_splice_flag = False
         w = BitsFieldWriter(self, dest)
         w.write(32, 'splice_event_id')
         w.write(1, 'splice_event_cancel_indicator')
